@@ -339,14 +339,14 @@ def callOK (env : Env) (file : AFile) (G : List String) (Γ : Ctx) (f : Imm) (ar
 
 /-- a tuple type whose struct `go_file` emits: a value type that `collect_runtime_types` finds in the file -/
 def tupleTyOK (env : Env) (file : AFile) (t : Ty) : Bool :=
-  valTy env t && (collectRuntimeTypes file).tuples.any (Goml.Mono.tyBeq t)
+  valTy env t && (collectRuntimeTypes env file).tuples.any (Goml.Mono.tyBeq t)
 
 /-- the names of the reference builtins (`ref(v)`, `ref_get(r)`, `ref_set(r, v)`) -/
 def refNames : List String := ["ref", "ref_get", "ref_set"]
 
 /-- a reference type whose helpers `go_file` emits: a value type that `collect_runtime_types` finds in the file -/
 def refTyOK (env : Env) (file : AFile) (t : Ty) : Bool :=
-  valTy env t && (collectRuntimeTypes file).refs.any (Goml.Mono.tyBeq t)
+  valTy env t && (collectRuntimeTypes env file).refs.any (Goml.Mono.tyBeq t)
 
 /-- a call of a reference builtin at the types of the cell: `ref(v) : Ref[e]`, `ref_get(r) : e`,
     `ref_set(r, v) : unit` -/
@@ -374,7 +374,7 @@ def arrNames : List String := ["array_get", "array_set"]
 
 /-- an array type whose helpers `go_file` emits: a value type that `collect_runtime_types` finds in the file -/
 def arrTyOK (env : Env) (file : AFile) (t : Ty) : Bool :=
-  valTy env t && (collectRuntimeTypes file).arrays.any (Goml.Mono.tyBeq t)
+  valTy env t && (collectRuntimeTypes env file).arrays.any (Goml.Mono.tyBeq t)
 
 /-- a call of an array builtin: `array_get(a, i) : e`, `array_set(a, i, v) : [e; n]`, the index of any integer type -/
 def arrCallOK (env : Env) (file : AFile) (G : List String) (Γ : Ctx) (f : Imm) (args : List Imm) (ty : Ty) : Bool :=
@@ -893,7 +893,7 @@ def fileOK (env : Env) (file : AFile) (n : Nat) : Bool :=
     !vecNames.contains f.name) &&
   reservedGoNames.all (fun r => (F.findFunc r).isNone) &&
   structsClosed env && (goodStructs env).all (structTableOK env F) && (goodEnums env).all (enumTableOK env F) &&
-  (collectRuntimeTypes file).refs.all (refTableOK env F) && (collectRuntimeTypes file).tuples.all (tupleTableOK env F) &&
+  (collectRuntimeTypes env file).refs.all (refTableOK env F) && (collectRuntimeTypes env file).tuples.all (tupleTableOK env F) &&
   ((collectDynRequirements file).traits ++ (collectDynRequirements file).vtables.map (·.1)).all (dynStructTableOK env F)
 
 /-- `G` is closed: the file-level conditions hold and every member passes the local checks with
